@@ -454,6 +454,40 @@ def strip_expect(cases_path, out_path):
                 g.write(json.dumps({"id": c["id"], "json": c["json"], "json2": c["json2"]}, separators=(",", ":")) + "\n")
 
 
+def add_written_out(exe, wd, cpath, rpath):
+    """For every program the real loader refused although the reference accepts it: what the real loader makes of the SAME layout written out by
+    hand (the reference expansion as basic mappings, in the form the tool itself saves). Adds the field `wo` ("ok" | "err" | "panic" | "none") to
+    every result row; no judgement here."""
+    rows = [json.loads(l) for l in open(rpath) if l.strip()]
+    refused = {r["id"] for r in rows if r.get("r1", {}).get("o") == "err"}
+    wo = {}
+    if refused:
+        todo = []
+        with open(cpath) as f:
+            for l in f:
+                if not l.strip():
+                    continue
+                c = json.loads(l)
+                if c["id"] in refused and c["expect"]["ok"]:
+                    ms = []
+                    for m in c["expect"]["mappings"]:
+                        rep = m["repeat"]
+                        rj = rep["kind"] if rep["kind"] != "Special" else {"Special": {"keys": rep["keys"], "delay_ms": rep["delay"], "interval_ms": rep["interval"]}}
+                        ms.append({"from": m["from"], "to": m["to"], "repeat": rj, "absorbing": m["absorbing"]})
+                    todo.append({"id": c["id"], "kind": "value", "json": {"mappings": ms}})
+        if todo:
+            wp = os.path.join(wd, "written_out.ndjson")
+            write_ndjson(wp, todo)
+            for l in run_tmv(exe, ["load", wp]).splitlines():
+                if l.strip():
+                    r = json.loads(l)
+                    wo[r["id"]] = r.get("r1", r)["o"]
+    with open(rpath, "w") as f:
+        for r in rows:
+            r["wo"] = wo.get(r["id"], "none")
+            f.write(json.dumps(r) + "\n")
+
+
 def c13(tier, replay_file=None):
     prop = "C13"
     res = Result(prop, tier, "translation_validation")
@@ -473,6 +507,7 @@ def c13(tier, replay_file=None):
         rpath = os.path.join(wd, "results.ndjson")
         t0 = time.time()
         run_tmv(exe, ["load", ipath], stdout_path=rpath)
+        add_written_out(exe, wd, cpath, rpath)
         cfiles, n = split_file(cpath, PROCS, wd, "case")
         rfiles, n2 = split_file(rpath, PROCS, wd, "res")
         log("[record] real loader on %d programs x 2 spellings, %.1fs" % (n, time.time() - t0))
